@@ -13,7 +13,11 @@ THEOREMS = ['C19.shipped_notations_show_their_arguments', 'C19.shipped_notations
             'C19.pretty_printer_translated', 'C19.pretty_text_is_the_model', 'C19.pretty_text_sound_at_every_fuel', 'C19.pretty_outside_table',
             'C19.pretty_table_lookup', 'C19.str_is_pretty_default',
             'C19.pretty_steps_match_binary_instructions', 'C19.pretty_steps_match_serializer_bytes', 'C19.pretty_wrapper_shape',
-            'C19.pretty_one_step_line_per_call', 'C19.pretty_step_keyword_is_a_word', 'C19.pretty_stack_dump_indented', 'C19.pretty_file_lists_the_calls']
+            'C19.pretty_one_step_line_per_call', 'C19.pretty_step_keyword_is_a_word', 'C19.pretty_stack_dump_indented', 'C19.pretty_file_lists_the_calls',
+            # operands of the pretty steps (Props/C19b.lean, PrettyOperands.lean): the slot a pretty `Load` line names is the operand of the
+            # binary Load; ids, keys (the binary reverses them), symbol names through the table
+            'C19.pretty_step_operands_match_binary', 'C19.pretty_call_operands_match_binary', 'C19.pretty_line_shows_operand',
+            'C19.pretty_load_names_the_binary_slot', 'C19.pretty_load_line_format', 'C19.pretty_symbol_through_the_table', 'C19.pretty_metavar_text']
 
 
 SYMS = ("s0", "s1", "foo", "⌈_⌉")
@@ -49,7 +53,7 @@ def gen_pp(rng, depth, nots, syms=SYMS):
 
 def run(rep):
     rng = random.Random(rep.seed * 1000003 + 19)
-    ok, detail = core.proof_gate(rep, 'Pi2.Props.C19', THEOREMS)
+    ok, detail = core.proof_gate(rep, 'Pi2.Props.C19b', THEOREMS)
     quick = rep.tier == 'quick'
     nots = gen.shipped_notations()
     lines, laws = [], []
